@@ -10,7 +10,9 @@
   One machine (`PSt`, `Cfg`) serves the three packet-per-block streams; it is
   parametrised by
     * the underlying writer `wr : ω → Bytes → Bool × ω` (one `Write` call of the
-      `io.Writer` the stream was constructed over: success or failure, new state)
+      `io.Writer` the stream was constructed over: success or failure, new state;
+      a failing write may have accepted a part of the slice; a short write
+      WITHOUT error — a violation of io.Writer's contract — is excluded, see `Wr`)
       — instantiated with the scripted writer `Wr` (binary streams) and with the
       armor encoder stream over a scripted writer (`FArm`, armored streams);
     * the packet function `pkt : index → chunk → final → Except Err Bytes` (what
@@ -40,12 +42,25 @@ open Saltpack Msgpack
 
 /-! ### the scripted underlying writer -/
 
-/-- an `io.Writer` whose k-th `Write` fails or not (`sink`, `true` = fails with
-    `(0, err)`; an exhausted script never fails).  `out` = the successful writes
-    in order (what reached the writer), `tried` = the sizes of ALL attempted
-    writes, `faults` = how many writes failed so far. -/
+/-- an `io.Writer` whose k-th `Write` fails or not (`sink`, `true` = fails; an
+    exhausted script never fails).  A FAILING write may have accepted a PART of
+    the slice before failing — `(n, err)` with `0 ≤ n ≤ len(p)`, legal for an
+    `io.Writer` and what files and sockets do: `part` lists, for the successive
+    failing writes, how many bytes each takes (`min k len(p)`; an exhausted list
+    = 0, the classic `(0, err)`).  `out` = what reached the writer, write by
+    write (the whole slice of a successful write, the accepted part of a
+    failing one), `tried` = the sizes of ALL attempted writes, `faults` = how
+    many writes failed so far.
+
+    EXCLUDED, not modelled: a SHORT WRITE WITHOUT ERROR `(n < len(p), nil)`.
+    It violates io.Writer's contract ("Write must return a non-nil error if it
+    returns n < len(p)"); go-codec (`ioEncWriter`: `_, err := w.Write`) and
+    armor.go (`spaceAndOutputBuffer`, `Close`) discard `n`, so over such a writer
+    the real streams report success for an incompletely written message — every
+    "success means written" theorem assumes the contract. -/
 structure Wr where
   sink : Stream.Sink := []
+  part : List Nat := []
   out : List Bytes := []
   tried : List Nat := []
   faults : Nat := 0
@@ -55,7 +70,8 @@ def Wr.write (w : Wr) (p : Bytes) : Bool × Wr :=
   match w.sink with
   | [] => (true, { w with out := w.out ++ [p], tried := w.tried ++ [p.length] })
   | f :: rest =>
-    if f then (false, { w with sink := rest, tried := w.tried ++ [p.length], faults := w.faults + 1 })
+    if f then (false, { w with sink := rest, part := w.part.tail, out := w.out ++ [p.take (w.part.headD 0)],
+                               tried := w.tried ++ [p.length], faults := w.faults + 1 })
     else (true, { w with sink := rest, out := w.out ++ [p], tried := w.tried ++ [p.length] })
 
 /-- everything that reached the writer -/
